@@ -154,12 +154,14 @@ fn eq(a: &RV, b: &RV) -> Result<bool, NC> {
         }
         (RV::V(V::Bool(x)), RV::V(V::Bool(y))) => Ok(x == y),
         (RV::Regex(x), RV::Regex(y)) => Ok(x == y),
-        (RV::V(V::Int(a)), RV::RangeI(lo, hi, li, ui)) => {
+        // (in either order: the value is compared with the members of a list literal as
+        // member == value; the tool had this one-sided until finding F65 was repaired)
+        (RV::V(V::Int(a)), RV::RangeI(lo, hi, li, ui)) | (RV::RangeI(lo, hi, li, ui), RV::V(V::Int(a))) => {
             let l = if *li { lo <= a } else { lo < a };
             let h = if *ui { hi >= a } else { hi > a };
             Ok(l && h)
         }
-        (RV::V(V::Float(a)), RV::RangeF(lo, hi, li, ui)) => {
+        (RV::V(V::Float(a)), RV::RangeF(lo, hi, li, ui)) | (RV::RangeF(lo, hi, li, ui), RV::V(V::Float(a))) => {
             let l = if *li { lo <= a } else { lo < a };
             let h = if *ui { hi >= a } else { hi > a };
             Ok(l && h)
